@@ -54,7 +54,7 @@ func staticOverlays(mode string) map[string]string {
 		}
 		out[target] = dst
 	}
-	if mode != "maps" {
+	if mode != "maps" && mode != "steps" {
 		return out
 	}
 	modcache := os.Getenv("GOMODCACHE")
